@@ -305,6 +305,10 @@ func genPair(r *hx.Rng) (string, string) {
 	return a, b
 }
 
+// strings whose case folding differs between Unicode rules and NaturalCmp's ASCII-only rule
+var nonASCIICased = []string{"\u00e9", "\u00c9", "\u00df", "\u1e9e", "\u03c3", "\u03a3", "\u03c2", "\u0131", "I", "i", "\u0130",
+	"\u212a", "k", "K", "\u00e5", "\u212b", "\u00c5", "\xff", "\xc3", "\xe9"}
+
 func (area) Gen(r *hx.Rng, n int, _ string, emit func(string)) {
 	for i := 0; i < n; i++ {
 		a, b := genPair(r)
@@ -313,14 +317,26 @@ func (area) Gen(r *hx.Rng, n int, _ string, emit func(string)) {
 		case 0, 1:
 			emit("less " + ci + " " + hx.Hex([]byte(a)) + " " + hx.Hex([]byte(b)))
 		case 2:
+			// slice lengths around the thresholds at which sort implementations switch strategy (12, 16/17, 32/33, 50+)
 			k := r.Range(0, 9)
+			switch r.Intn(6) {
+			case 0:
+				k = hx.Pick(r, []int{11, 12, 13, 15, 16, 17, 18, 31, 32, 33, 34})
+			case 1:
+				k = r.Range(20, 70)
+			}
 			parts := make([]string, 0, k)
 			cur := a
 			for j := 0; j < k; j++ {
 				parts = append(parts, hx.Hex([]byte(cur)))
-				if r.Chance(1, 4) {
+				switch {
+				case r.Chance(1, 4):
 					cur = genStr(r)
-				} else {
+				case r.Chance(1, 6):
+					// cased non-ASCII letters and other bytes on which Unicode and ASCII case folding differ
+					cur = hx.Pick(r, nonASCIICased) + hx.Pick(r, []string{"a", "b", "A", "B", "1", "02", ""}) +
+						hx.Pick(r, append(nonASCIICased, "", "z", "Z"))
+				default:
 					cur = related(r, cur, pickKind(r))
 				}
 			}
